@@ -268,6 +268,46 @@ def scenario_snapshot_over_waiting(repo, seed, extra=0, observer=False, raising=
     return sim, viols, note
 
 
+def scenario_forward_then_local(repo, seed, observer, at="leader", batch=True, n_local=1):
+    """ONE pass over a node's command queue takes a command forwarded by another node (its callback entry is the pair
+    (requester, request id)) and then the node's OWN command(s) with a callback: each is handled on its own - the own
+    command's callback is registered (leader) or the command is forwarded in its turn (non-leader), the requester gets
+    exactly one reply."""
+    voters = ["a", "b", "c"]
+    sim = Sim(repo, voters, observers=(["o"] if observer else []), seed=seed, conf={"appendEntriesUseBatch": batch})
+    sim.connect_all()
+    L = sim.elect(among=voters)
+    if L is None:
+        return sim, [], "no leader"
+    sim.run(6)
+    others = [x for x in voters if x != L]
+    R = "o" if observer else others[0]              # requester
+    T = L if at == "leader" else others[1]          # the node whose queue holds both
+    if at != "leader":
+        # a requester that believes T is the leader: T answers NOT_LEADER for the forwarded one, handles its own normally
+        sim.objs[R]._SyncObj__raftLeader = sim.objs[T].selfNode
+    cid_f = sim.submit(R, "fwd")
+    sim.tick(R, 0.0)
+    while sim.deliver(R, T):
+        pass
+    cids = [sim.submit(T, "loc%d" % k) for k in range(n_local)]
+    sim.tick(T, 0.0)                                # one pass: forwarded first, then the own ones
+    sim.run(30)
+    viols = monitors.callbacks_contract(sim) + monitors.errors(sim) + monitors.sm_safety(sim)
+    for c in cids + ([cid_f] if at == "leader" else []):
+        got = [(r, e) for (n, k, r, e) in sim.callbacks if k == c]
+        if len(got) != 1 or got[0][1] != 0:
+            viols.append({"signature": "callback:own-command-after-forwarded-one-not-answered-once",
+                          "what": "queue of %s (%s) held a command forwarded by %s%s and then %d own command(s): callback of command %d "
+                                  "fired %s (expected one SUCCESS)" % (T, at, "read-only node " if observer else "", R, n_local, c, got)})
+    if at != "leader":
+        got = [(r, e) for (n, k, r, e) in sim.callbacks if k == cid_f]
+        if len(got) != 1:
+            viols.append({"signature": "callback:forwarded-command-answered-%d-times" % len(got),
+                          "what": "command forwarded by %s to the non-leader %s was answered %s" % (R, T, got)})
+    return sim, viols, None
+
+
 def run(ctx):
     t0 = time.time()
     cases, viols, samples, notes = 0, [], [], []
@@ -332,6 +372,17 @@ def run(ctx):
                 for x in v:
                     x["replay"] = {"component": "corr.c02_forwarding", "snapwait": [extra, observer], "seed": ctx.seed}
                 viols.extend(v)
+    if not viols:
+        for observer in (False, True):
+            for at in ("leader", "follower"):
+                for batch in (True, False):
+                    for n_local in (1, 2):
+                        sim, v, note = scenario_forward_then_local(ctx.repo, ctx.seed, observer, at, batch, n_local)
+                        cases += 1
+                        seen.add((("fwdlocal", observer, at, batch, n_local), note is None))
+                        for x in v:
+                            x["replay"] = {"component": "corr.c02_forwarding", "fwdlocal": [observer, at, batch, n_local], "seed": ctx.seed}
+                        viols.extend(v)
     reached = len([1 for (p, ok) in seen if ok])
     r = {"name": "corr.c02_forwarding", "cases": cases, "distinct": len(seen), "violations": viols[:5],
          "coverage": {"plans": len(plans), "plans_reaching_the_point": reached, "notes": sorted(set(notes))[:5]},
@@ -347,6 +398,9 @@ def run(ctx):
 
 def replay(ctx, violation):
     rp = violation.get("replay", {})
+    if "fwdlocal" in rp:
+        sim, v, note = scenario_forward_then_local(ctx.repo, rp.get("seed", 1), *rp["fwdlocal"])
+        return {"violated": bool(v), "violations": v[:5], "note": note}
     if "snapwait" in rp:
         sim, v, note = scenario_snapshot_over_waiting(ctx.repo, rp.get("seed", 1), *rp["snapwait"])
         return {"violated": bool(v), "violations": v[:5], "note": note}
